@@ -81,6 +81,20 @@ def check_gcs(chk, ex, found):
             _wrappers.row(chk, "%s:path%d:records-n_added" % (name, i), okn, str(getattr(na, "t", na)), found)
 
 
+def check_gcs_default(chk, ex, found):
+    """generate_candidate_set(None) records floor(phi * n_added) as its threshold"""
+    sref, st0 = concrete_hh(ex, 1, 1, 2)
+    f0 = st0.objs[sref.oid]["fields"]
+    outs = _glue.call_method(ex, st0.fork(), sref, "generate_candidate_set", [])
+    nad = z3.Int("elem_%s[0]" % f0["n_added_records"].data)
+    for i, (o, e) in enumerate(outs):
+        if o.kind != "return":
+            _wrappers.row(chk, "generate_candidate_set(None):path%d:no-exception" % i, _glue.exc_type(o.state, o.value) is OverflowError, None, found)
+            continue
+        f = o.state.objs[sref.oid]["fields"]
+        chk.prove("generate_candidate_set(None):path%d:threshold==floor(phi*n_added)" % i, o.state.pc, _glue.ex_num(f["threshold_sort"]) == z3.ToInt(f0["phi"].t * z3.ToReal(nad)), tag="G")
+
+
 def check_query(chk, ex, found):
     """query(): default threshold, regeneration exactly when stale, answer = most_common(k) of the cache"""
     a, objs, _ = _glue.good_objects(ex, "HeavyHitters", "q")
@@ -116,10 +130,12 @@ def check_query(chk, ex, found):
             if regen:
                 _wrappers.row(chk, "%s:path%d:regenerates-once" % (name, i), len(regen) == 1, None, found)
                 targ = regen[0][2]
-                okt = len(targ) == 1 and isinstance(targ[0], (Sym, Const))
+                none_arg = len(targ) == 0 or (len(targ) == 1 and isinstance(targ[0], Const) and targ[0].v is None)
+                okt = (len(targ) == 1 and isinstance(targ[0], (Sym, Const)) and not none_arg) or (none_arg and case == "default")
                 _wrappers.row(chk, "%s:path%d:regenerates-with-a-threshold" % (name, i), okt, repr(targ), found)
-                if okt:
+                if okt and not none_arg:
                     chk.prove("%s:path%d:regenerates-for-the-effective-threshold" % (name, i), pc, _glue.ex_num(targ[0]) == eff_thr, tag="G")
+                # (a None argument lets generate_candidate_set compute floor(phi * n_added) itself: see its own rows)
             else:
                 chk.prove("%s:path%d:cache-reused-only-when-fresh" % (name, i), pc, z3.And(nas >= nad, ths == eff_thr), tag="G")
             rv = o.value
@@ -150,10 +166,13 @@ def run(chk):
             cache["r"] = r
         return cache["r"]
 
+    chk.default_found = found
+
     _hh.kernels(chk, ["heavyhitters._max_count", "heavyhitters._add", "heavyhitters._merge"])
     ex = glue.make_exec(chk, {("call", "heavyhitters._max_count"): maxcount_hook})
     try:
         check_gcs(chk, ex, found)
+        check_gcs_default(chk, ex, found)
     except X.Unsupported as e:
         chk.undecided.append(("generate_candidate_set", "unsupported construct in glue: %s" % e))
     ex2 = glue.make_exec(chk, {("call", "HeavyHitters.generate_candidate_set"): glue._stub_gcs})
